@@ -340,9 +340,18 @@ XalanTranscodingServices::encodingIsUTF8(const XalanDOMString&  theEncodingName)
 bool
 XalanTranscodingServices::encodingIsUTF16(const XalanDOMChar*   theEncodingName)
 {
+    // "Is UTF-16" means "the code units can be written as they are in
+    // memory": UTF-16, and UTF-16LE or UTF-16BE if that is the byte order
+    // of this machine.  The other byte order needs a real transcoder.
+    const XalanDOMChar  theOne = 1;
+
+    const bool  isLittleEndian =
+        *reinterpret_cast<const char*>(&theOne) == 1;
+
     return compareIgnoreCaseASCII(theEncodingName, s_utf16String) == 0 ||
-           compareIgnoreCaseASCII(theEncodingName, s_utf16LEString) == 0 ||
-           compareIgnoreCaseASCII(theEncodingName, s_utf16BEString) == 0 ? true : false;
+           compareIgnoreCaseASCII(
+                theEncodingName,
+                isLittleEndian == true ? s_utf16LEString : s_utf16BEString) == 0 ? true : false;
 }
 
 
